@@ -1,6 +1,6 @@
 (* Model of the notations the linker expands (C09): COMPONENTS OF (validator/linking/mod.rs link_components_of_notation,
    driven by validator/mod.rs link: one pass over the definitions in descending name order, each resolved against the
-   current state of the others) and the selection type (link_choice_selection_type).  Types are reduced to what these
+   current state of the others, a referenced type that is not yet linked being linked first on a copy) and the selection type (link_choice_selection_type).  Types are reduced to what these
    steps read: the component names.  No proofs here. *)
 From Coq Require Import NArith List Bool.
 Require Import RasnV.Model.Base RasnV.Model.Driver.
@@ -18,7 +18,7 @@ Fixpoint refs_of (l : list citem) : list str :=
   match l with [] => [] | Own _ :: r => refs_of r | ComponentsOf n :: r => n :: refs_of r end.
 
 (* ---- what the linker does ---- *)
-(* the state of one definition during linking: its members so far; kind and pending references stay as parsed *)
+(* the state of one definition during linking: its members so far and the COMPONENTS OF references not yet resolved *)
 Record lstate := mkls { l_name : str; l_is_seq : bool; l_members : list str; l_refs : list str }.
 
 Definition init_state (d : tdef) : lstate := mkls (t_name d) (t_is_seq d) (own_names (t_items d)) (refs_of (t_items d)).
@@ -26,15 +26,32 @@ Definition init_state (d : tdef) : lstate := mkls (t_name d) (t_is_seq d) (own_n
 Fixpoint find_state (n : str) (st : list lstate) : option lstate :=
   match st with [] => None | s :: r => if str_eqb n (l_name s) then Some s else find_state n r end.
 
-(* link_components_of_notation for one definition: the members of each referenced SEQUENCE or SET, as they are now, appended
-   (the kind of the referenced type is not compared with the kind of the including one) *)
-Definition link_one (st : list lstate) (s : lstate) : lstate :=
-  mkls (l_name s) (l_is_seq s)
-       (l_members s ++ flat_map (fun r => match find_state r st with
-                                          | Some t => l_members t
-                                          | None => []
-                                          end) (l_refs s))
-       (l_refs s).
+Definition mem_str (x : str) (l : list str) : bool := existsb (str_eqb x) l.
+
+(* the map without the entry that is being linked (the driver takes it out with remove_entry) *)
+Fixpoint remove_state (n : str) (st : list lstate) : list lstate :=
+  match st with
+  | [] => []
+  | x :: r => if str_eqb n (l_name x) then remove_state n r else x :: remove_state n r
+  end.
+
+(* link_components_of_notation_from for one definition: each pending COMPONENTS OF reference that is not being visited and
+   is found has its own pending references resolved first, on a copy (the referenced type may come later in the pass), then
+   its members are appended; the pending references are removed.  `fuel` bounds the depth of the copies: every level adds a
+   found name that is not yet in `visiting`, so the depth never exceeds the number of entries; the pass supplies one more
+   than that, and every theorem about the pass states the height of the chain it speaks about. *)
+Fixpoint link_full (fuel : nat) (st : list lstate) (visiting : list str) (s : lstate) : lstate :=
+  match fuel with
+  | 0 => s
+  | S f =>
+      mkls (l_name s) (l_is_seq s)
+           (l_members s ++ flat_map (fun r => if mem_str r visiting then []
+                                              else match find_state r st with
+                                                   | Some t => l_members (link_full f st (r :: visiting) t)
+                                                   | None => []
+                                                   end) (l_refs s))
+           []
+  end.
 
 Fixpoint replace_state (s : lstate) (st : list lstate) : list lstate :=
   match st with
@@ -42,12 +59,15 @@ Fixpoint replace_state (s : lstate) (st : list lstate) : list lstate :=
   | x :: r => if str_eqb (l_name s) (l_name x) then s :: r else x :: replace_state s r
   end.
 
+(* one step of the pass: the definition named n is taken out, linked against the others, put back *)
+Definition link_step (st : list lstate) (n : str) : list lstate :=
+  match find_state n st with
+  | Some s => replace_state (link_full (S (length st)) (remove_state n st) [] s) st
+  | None => st
+  end.
+
 (* the pass: names in descending order *)
-Definition link_pass (order : list str) (st : list lstate) : list lstate :=
-  fold_left (fun acc n => match find_state n acc with
-                          | Some s => replace_state (link_one acc s) acc
-                          | None => acc
-                          end) order st.
+Definition link_pass (order : list str) (st : list lstate) : list lstate := fold_left link_step order st.
 
 Definition descending (ds : list tdef) : list str := rev (map fst (from_list t_name ds)).
 
@@ -106,14 +126,15 @@ Definition link_marked (own_root own_adds copied : list str) (marker : bool) : l
 Definition trailing (d : tdef) : Prop :=
   t_items d = map Own (own_names (t_items d)) ++ map ComponentsOf (refs_of (t_items d)).
 
-(* [ordered_chain ds h n]: n is defined, its COMPONENTS OF entries come last, and each names a type of the same kind that
-   sorts after n and is itself the head of such a chain of height below h *)
-Inductive ordered_chain (ds : list tdef) : nat -> str -> Prop :=
-| oc_intro h n d :
+(* [acyclic_chain ds rank n]: n is defined, its COMPONENTS OF entries come last, and each names a defined type of the same
+   kind, of smaller rank, that is itself the head of such a chain.  A rank that decreases along the references exists
+   exactly when the chain is not circular (the height of a type in the chain is one). *)
+Inductive acyclic_chain (ds : list tdef) (rank : str -> nat) : str -> Prop :=
+| ac_intro n d :
     find_def n ds = Some d -> trailing d ->
     (forall r, In r (refs_of (t_items d)) ->
-               str_compare n r = Lt /\ exists dr, find_def r ds = Some dr /\ t_is_seq dr = t_is_seq d /\ ordered_chain ds h r) ->
-    ordered_chain ds (S h) n.
+               rank r < rank n /\ exists dr, find_def r ds = Some dr /\ t_is_seq dr = t_is_seq d /\ acyclic_chain ds rank r) ->
+    acyclic_chain ds rank n.
 
 (* ---- selection type: `alt < Choice` is the type of that alternative ---- *)
 Definition select (alts : list (str * N)) (alt : str) : option N :=
